@@ -276,6 +276,23 @@ def c20_file_saturation(v, spec):
             all(h > 0.99 for h in v.get('headrooms', [0])))
 
 
+@pred('C13-one3d-default-shape')
+def c13_one3d_default_shape(v, spec):
+    # called without rows/cols the one3d-family memory-mapped readers present
+    # the cells as one ROW of N columns (their documented default) while the
+    # record readers (and the temperature/height readers of both families)
+    # present N rows of one column; the data agree up to length-1 axes
+    if not v['kind'].startswith('readers-disagree:'):
+        return False
+    if v.get('fmt') not in ('humidity', 'vertical_diffusivity', 'one3d'):
+        return False
+    if not (spec or {}).get('noshape'):
+        return False
+    pr = v.get('problems') or []
+    return bool(pr) and all(p.startswith('dimension COL:') or
+                            p.startswith('dimension ROW:') for p in pr)
+
+
 @pred('C14-bpch2-partial-last-step')
 def c14_bpch2_partial(v, spec):
     # The block-walking reader (bpch2) indexes whatever complete data blocks
